@@ -40,13 +40,10 @@ AX = {"ne": [1e18, 1e19, 1e20], "te": [1.0, 10.0, 100.0], "td": [2.0, 20.0, 200.
 
 
 def axes_for(acc, shape):
+    """shape = the axes stored as a single point (the middle one of the 3-point axis)"""
     ax = {k: list(v) for k, v in AX.items()}
-    if shape == "single":
-        if acc == "beam_cx_pec":
-            for k in ("eb", "ti", "ni", "z", "b"):
-                ax[k] = [ax[k][1]]
-        else:
-            ax["e"] = [ax["e"][1]]
+    for k in ([] if shape == "full" else shape):
+        ax[k] = [ax[k][1]]
     return ax
 
 
@@ -59,7 +56,7 @@ def beam_table(base, ax):
 
 def cx_table(base, ax, meta):
     import numpy as np
-    q = lambda n, s: np.array([base * (1 + s * i) for i in range(n)])      # noqa: E731
+    q = lambda n, s: np.array([base * (1 + 3 * s) * (1 + s * i) for i in range(n)])      # noqa: E731  (pairwise distinct factors, also at index 0)
     return {"eb": ax["eb"], "ti": ax["ti"], "ni": ax["ni"], "z": ax["z"], "b": ax["b"], "qref": base * (1.1 + 0.05 * meta),
             "qeb": q(len(ax["eb"]), 0.4) * meta, "qti": q(len(ax["ti"]), 0.1), "qni": q(len(ax["ni"]), 0.2),
             "qz": q(len(ax["z"]), 0.15), "qb": q(len(ax["b"]), 0.05)}
@@ -321,7 +318,7 @@ def run(v):
 
 def selftest():
     rec = {"case": {"acc": "ionisation_rate", "species": "isotope", "present": True, "wl": "both", "extrap": False, "null": False, "fallback": False,
-                    "arg": ["grid"], "shape": "full"}, "outcome": ["table_value", ["none"]], "axes": ["ne", "te"]}
+                    "arg": ["grid"], "shape": []}, "outcome": ["table_value", ["none"]], "axes": ["ne", "te"]}
     good = replay(rec, None)
     bad = replay(dict(rec, outcome=["zero"]), None)
     ok = not good and bool(bad)
